@@ -522,6 +522,9 @@ pub fn c04_texts(c: u32) -> Vec<String> {
         "\u{100}\u{2500}".into(),
         "\u{e9}".into(),
         "`q".into(),
+        " ".into(),
+        "a b".into(),
+        "\u{a0}~".into(),
     ];
     let mut long = String::new();
     for i in 0..(c + 1) {
